@@ -214,7 +214,9 @@ func (s *snapshotSink) done(err error) (snapshotMeta, error) {
 	temp = nil
 	verifPoint("snap.publish", filepath.Dir(s.snaps.dir))
 	s.snaps.mu.Lock()
-	s.snaps.index, s.snaps.term = s.meta.index, s.meta.term
+	if s.meta.index > s.snaps.index {
+		s.snaps.index, s.snaps.term = s.meta.index, s.meta.term
+	}
 	s.snaps.mu.Unlock()
 	_ = s.snaps.applyRetain() // todo: trace error
 	verifPoint("snap.retain", filepath.Dir(s.snaps.dir))
